@@ -90,8 +90,7 @@ Definition surface_names := ["SURFFLUX"; "CURRENT"].
 (* ---------------- Reader ---------------- *)
 Definition amap := list (string * nat).         (* anisotropies dict; "anisotropy" always present *)
 
-Definition amap_set (m : amap) (k : string) (v : nat) : amap :=
-  (k, v) :: filter (fun p => negb (String.eqb (fst p) k)) m.
+Definition amap_set (m : amap) (k : string) (v : nat) : amap := (k, v) :: m.   (* newest first *)
 Definition amap_get (m : amap) (k : string) : option nat := assoc k m.
 
 (* extract_output_info(data, name): one nesting level under a 'macro' group *)
@@ -158,23 +157,24 @@ Definition size_of (n : node) : res nat :=
 Definition excluded (k : string) : bool :=
   prefix_b "LOCAL" k || prefix_b "local" k || prefix_b "info" k || prefix_b "NSURF" k.
 
+(* results of the members of a group, in order; the first failure aborts *)
+Definition collect {A E} (g : A -> res (list E)) (xs : list A) : res (list E) :=
+  fold_right (fun p acc => bind acc (fun l => bind (g p) (fun es => ROk (es ++ l)))) (ROk []) xs.
+
 (* an entry of the browser: labels, the key under which the result is stored, the dataset *)
 Record entry := mk_entry { e_out : string; e_zone : string; e_iso : option string;
                            e_name : string; e_key : string; e_ds : dset }.
 
 (* loop_over_std_values: (key, dataset) for every member that is a result *)
+Definition std_member (m : amap) (ng : nat) (p : string * node) : res (list (string * dset)) :=
+  if excluded (fst p) then ROk []
+  else bind (size_of (snd p)) (fun size =>
+       bind (r_make_bins (fst p) size ng (Some m)) (fun b =>
+       bind (r_dataset (snd p) (lower (fst p)) b) (fun d => ROk [(fst p, d)]))).
+
 Definition loop_std (g : node) (ng : nat) (in_macro : bool) : res (list (string * dset)) :=
   match g with
-  | Grp ch =>
-      bind (extract_output_info (assoc "info" ch) in_macro) (fun m =>
-        fold_right (fun p acc =>
-                      if excluded (fst p) then acc
-                      else bind acc (fun l =>
-                             bind (size_of (snd p)) (fun size =>
-                             bind (r_make_bins (fst p) size ng (Some m)) (fun b =>
-                             bind (r_dataset (snd p) (lower (fst p)) b) (fun d =>
-                             ROk ((fst p, d) :: l))))))
-                   (ROk []) ch)
+  | Grp ch => bind (extract_output_info (assoc "info" ch) in_macro) (fun m => collect (std_member m ng) ch)
   | _ => RErr TypeError
   end.
 
@@ -205,48 +205,47 @@ Fixpoint dict_of {V} (l : list (string * V)) : list (string * V) :=
   end.
 
 (* extract_zone_values *)
+Definition group_entries (o z k : string) (rs : list (string * dset)) : list entry :=
+  map (fun q => mk_entry o z (Some k) (lower (fst q)) (fst q) (snd q)) rs.
+
+Definition zone_member (o z : string) (ch : list (string * node)) (ng : nat) (liso : list string)
+           (p : string * node) : res (list entry) :=
+  let k := fst p in
+  if String.eqb k "CONCEN" then
+    bind (names_of (assoc "ISOTOPE" ch)) (fun names =>
+    bind (arr_of (assoc "CONCEN" ch)) (fun conc =>
+      ROk (map (fun q => mk_entry o z (Some (fst q)) "concentration" "concentration"
+                                  (mk_dset true [snd q] BNone "concentration"))
+               (dict_of (zip_conc names conc)))))
+  else if String.eqb k "macro" then
+    bind (loop_std (snd p) ng true) (fun rs => ROk (group_entries o z k rs))
+  else if String.eqb k "NISOT" || String.eqb k "ISOTOPE" then ROk []
+  else if mem k liso then
+    bind (loop_std (snd p) ng false) (fun rs => ROk (group_entries o z k rs))
+  else
+    bind (size_of (snd p)) (fun size =>
+    bind (r_make_bins k size ng None) (fun b =>
+    bind (r_dataset (snd p) (lower k) b) (fun d => ROk [mk_entry o z None (lower k) k d]))).
+
 Definition zone_entries (o z : string) (g : node) (ng : nat) : res (list entry) :=
   match g with
   | Grp ch =>
       bind (match assoc "NISOT" ch with Some n => first_int n | None => RErr KeyError end) (fun nisot =>
       bind (if Nat.eqb nisot 0 then ROk [] else names_of (assoc "ISOTOPE" ch)) (fun liso =>
-        fold_right (fun p acc =>
-          bind acc (fun l =>
-            let k := fst p in
-            if String.eqb k "CONCEN" then
-              bind (names_of (assoc "ISOTOPE" ch)) (fun names =>
-              bind (arr_of (assoc "CONCEN" ch)) (fun conc =>
-                ROk (map (fun q => mk_entry o z (Some (fst q)) "concentration" "concentration"
-                                            (mk_dset true [snd q] BNone "concentration"))
-                         (dict_of (zip_conc names conc)) ++ l)))
-            else if String.eqb k "macro" then
-              bind (loop_std (snd p) ng true) (fun rs =>
-                ROk (map (fun q => mk_entry o z (Some k) (lower (fst q)) (fst q) (snd q)) rs ++ l))
-            else if String.eqb k "NISOT" || String.eqb k "ISOTOPE" then ROk l
-            else if mem k liso then
-              bind (loop_std (snd p) ng false) (fun rs =>
-                ROk (map (fun q => mk_entry o z (Some k) (lower (fst q)) (fst q) (snd q)) rs ++ l))
-            else
-              bind (size_of (snd p)) (fun size =>
-              bind (r_make_bins k size ng None) (fun b =>
-              bind (r_dataset (snd p) (lower k) b) (fun d =>
-                ROk (mk_entry o z None (lower k) k d :: l))))))
-          (ROk []) ch))
+        collect (zone_member o z ch ng liso) ch))
   | _ => RErr TypeError
   end.
 
 (* extract_standard_values *)
+Definition output_member (o : string) (ng : nat) (p : string * node) : res (list entry) :=
+  if String.eqb (fst p) "totaloutput" then
+    bind (loop_std (snd p) ng false) (fun rs =>
+      ROk (map (fun q => mk_entry o (fst p) None (lower (fst q)) (fst q) (snd q)) rs))
+  else zone_entries o (fst p) (snd p) ng.
+
 Definition output_entries (o : string) (g : node) (ng : nat) : res (list entry) :=
   match g with
-  | Grp ch =>
-      fold_right (fun p acc =>
-        bind acc (fun l =>
-          if String.eqb (fst p) "totaloutput" then
-            bind (loop_std (snd p) ng false) (fun rs =>
-              ROk (map (fun q => mk_entry o (fst p) None (lower (fst q)) (fst q) (snd q)) rs ++ l))
-          else
-            bind (zone_entries o (fst p) (snd p) ng) (fun es => ROk (es ++ l))))
-        (ROk []) ch
+  | Grp ch => collect (output_member o ng) ch
   | _ => RErr TypeError
   end.
 
@@ -254,10 +253,7 @@ Definition output_entries (o : string) (g : node) (ng : nat) : res (list entry) 
 Definition file := list (string * nat * node).
 
 Definition reader (f : file) : res (list entry) :=
-  fold_right (fun p acc =>
-                bind acc (fun l =>
-                  bind (output_entries (fst (fst p)) (snd p) (snd (fst p))) (fun es => ROk (es ++ l))))
-             (ROk []) f.
+  collect (fun p : string * nat * node => output_entries (fst (fst p)) (snd p) (snd (fst p))) f.
 
 (* ---------------- Picker ---------------- *)
 Definition p_make_bins (size : nat) (name : string) (ng : nat) (naniso : option nat) : res bkind :=
@@ -316,42 +312,43 @@ Definition lookup_output (f : file) (o : string) : res (nat * node) :=
   | None => RErr KeyError
   end.
 
-(* Picker.pick_standard_value *)
+(* Picker.pick_standard_value, once self.hfile[output][zone] is reached *)
+Definition pick_in_zone (ng : nat) (zone : node) (name : string) (iso : option string) : res dset :=
+  if mem name picker_scalar_names then
+    bind (get zone name) (fun d =>
+      match d with
+      | Arr (v :: _) => ROk (mk_dset true [v] BNone (lower name))
+      | Arr [] => RErr IndexError
+      | _ => RErr TypeError
+      end)
+  else match iso with
+  | None =>
+      bind (get zone name) (fun d =>
+      bind (size_of d) (fun size =>
+      bind (p_make_bins size name ng None) (fun b => p_dataset d name b)))
+  | Some i =>
+      if String.eqb name "concentration" then
+        bind (p_isotopes zone) (fun l =>
+          match index_of i l with
+          | None => RErr ValueError
+          | Some k =>
+              bind (arr_of (child zone "CONCEN")) (fun conc =>
+                match nth_error conc k with
+                | Some v => ROk (mk_dset true [v] BNone "concentration")
+                | None => RErr IndexError
+                end)
+          end)
+      else
+        bind (get zone i) (fun isores =>
+        bind (get isores name) (fun d =>
+        bind (size_of d) (fun size =>
+        bind (p_nb_aniso isores name) (fun na =>
+        bind (p_make_bins size name ng na) (fun b => p_dataset d name b)))))
+  end.
+
 Definition pick (f : file) (o z name : string) (iso : option string) : res dset :=
   bind (lookup_output f o) (fun og =>
-  let '(ng, out) := og in
-  bind (get out z) (fun zone =>
-    if mem name picker_scalar_names then
-      bind (get zone name) (fun d =>
-        match d with
-        | Arr (v :: _) => ROk (mk_dset true [v] BNone (lower name))
-        | Arr [] => RErr IndexError
-        | _ => RErr TypeError
-        end)
-    else match iso with
-    | None =>
-        bind (get zone name) (fun d =>
-        bind (size_of d) (fun size =>
-        bind (p_make_bins size name ng None) (fun b => p_dataset d name b)))
-    | Some i =>
-        if String.eqb name "concentration" then
-          bind (p_isotopes zone) (fun l =>
-            match index_of i l with
-            | None => RErr ValueError
-            | Some k =>
-                bind (arr_of (child zone "CONCEN")) (fun conc =>
-                  match nth_error conc k with
-                  | Some v => ROk (mk_dset true [v] BNone "concentration")
-                  | None => RErr IndexError
-                  end)
-            end)
-        else
-          bind (get zone i) (fun isores =>
-          bind (get isores name) (fun d =>
-          bind (size_of d) (fun size =>
-          bind (p_nb_aniso isores name) (fun na =>
-          bind (p_make_bins size name ng na) (fun b => p_dataset d name b)))))
-    end)).
+    bind (get (snd og) z) (fun zone => pick_in_zone (fst og) zone name iso)).
 
 (* ---- what a generated cases file evaluates ---- *)
 Inductive dobs := ORaise (cls : string) | ODs (d : dset).
